@@ -64,9 +64,20 @@ def variant(rng, s, insensitive=True):
     return s.capitalize()
 
 
+# lengths around the sizes of read buffers (4 KiB, 8 KiB): a line is a line
+# however long it is
+LONG_LENGTHS = [4070, 4090, 4100, 8170, 8190, 8200, 8300, 16500]
+P_LONG = 0.004
+
+
 def _value(rng, dt, p_bad=0.04):
     if family.INVALID[dt] and rng.random() < p_bad:
         return rng.choice(family.INVALID[dt])
+    if dt in ("string", "null") and rng.random() < P_LONG:
+        n = rng.choice(LONG_LENGTHS)
+        # words, so that a piece cut off anywhere reads as a line of its own
+        w = rng.choice(["beta ", "k v ", "L", "<a> ", "%define x "])
+        return (w * (n // len(w) + 1))[:n].strip()
     return rng.choice(family.VALID[dt])[0]
 
 
